@@ -1124,6 +1124,17 @@ class Exec:
                 except Exception:
                     reg = None
             info = getattr(fr, 'addrinfo', {}).get(reg) if reg else None
+            con_ = self.cur_contract
+            if info is not None and con_ is not None and not getattr(self, 'dry', 0) and fr.f['name'] == self.cur_fn:
+                # `onstore Struct.field: expr` -- obligation right before every store to that field (locals visible)
+                for cl in con_.of('onstore'):
+                    if cl.extra['fn'] != '%s.%s' % (info[0], info[1]) or not self.active(cl):
+                        continue
+                    e2 = dict(self.cur_env)
+                    e2.update(self.local_env(fr, st))
+                    g = self.spec.eval_bool(self, cl.expr, e2, st, self.old_for(st))
+                    self.oblige(st, '%s/%s/onstore.%s.%s@L%s' % (self.tagstr(cl), self.short_fn(), cl.extra['fn'], cl.label or 'c%d' % cl.ordinal, self.line(ins)), g,
+                                tags=cl.tags, where='%s:%d' % (cl.file, cl.line), kind='onstore')
             if info is not None and info[0] in ('bucket', 'bucketOf') and not isinstance(v, tuple) and not isinstance(v.x, list):
                 import coupling
                 lg = coupling.lane_goal(self, st, info, a.x, self.term(v)) if not getattr(self, 'dry', 0) else None
@@ -1198,6 +1209,17 @@ class Exec:
             # end of the locked region = the linearization point of a writer: the contract is evaluated on this state
             st.lk_post = None
             st.lk_post = st.copy()
+            # after the release other goroutines run again: shared memory is arbitrary for the rest of the call (the
+            # ghosts of the region just completed are kept: obligations after the release speak about its effect)
+            for key, cell in st.mem.items():
+                keep = [(q, v) for (q, v) in cell[1] if q.cid is not None]
+                cell[0] = self.fresh('MRL_' + mangle(key), cell[0].sort())
+                cell[1] = keep
+            # ... subject to the object invariants that every operation of every goroutine preserves (`onrelease` clauses)
+            con_ = self.cur_contract
+            if con_ is not None and self.spec is not None:
+                for c_ in con_.of('onrelease'):
+                    st.pc.append(self.spec.eval_bool(self, c_.expr, dict(self.cur_env), st, st))
 
     def on_cond_wait(self, st, p, ins):
         # monitor discipline (C13): Wait is called with a mutex held; while waiting, other goroutines run: every shared
